@@ -316,6 +316,20 @@ pub fn check_c07(prop: &str, tier: &str) -> i32 {
             let mut m = w.clone();
             m.items.swap(0, n - 1);
             push("first and last items exchanged", m);
+            // one byte of the ML-KEM ciphertext / of the masked seed of single components, at the
+            // first positions, in the middle and at the end of the list
+            for j in [0usize, 1, 2, 3, n / 2, n - 2, n - 1] {
+                let mut m = w.clone();
+                m.items[j].1[5] ^= 0x10;
+                push(&format!("one bit of the masked seed of component {j} altered"), m);
+                if let Some(e) = &w.items[j].0 {
+                    for at in [0, e.len() / 2, e.len() - 1] {
+                        let mut m = w.clone();
+                        m.items[j].0.as_mut().unwrap()[at] ^= 0x04;
+                        push(&format!("one bit (byte {at}) of the ML-KEM ciphertext of component {j} altered"), m);
+                    }
+                }
+            }
             let mut m = w.clone();
             m.traps.push(w.traps[0].clone());
             push("first trap appended again", m);
@@ -352,6 +366,9 @@ pub fn check_c07(prop: &str, tier: &str) -> i32 {
         if m.bytes == s.bytes {
             return (0u8, None);
         }
+        // the genuine encapsulation is read first, in this very thread: a reader that remembers
+        // earlier inputs must not let the altered copy pass for the genuine one
+        let _ = catch_unwind(|| XEnc::deserialize(&s.bytes));
         let enc = match catch_unwind(|| XEnc::deserialize(&m.bytes)) {
             Ok(Ok(e)) => e,
             Ok(Err(_)) => return (1, None),
@@ -426,6 +443,67 @@ pub fn check_c07(prop: &str, tier: &str) -> i32 {
             }
         }
     }
+    // a large plaintext (several 64 KiB units): aligned chunks exchanged, dropped, duplicated, for
+    // the chunk sizes a segmented sealing could use
+    if !(crate::common::is_sub() && !thorough) {
+        let ptx: Vec<u8> = (0..200_000usize).map(|i| (i * 7 % 251) as u8).collect();
+        let ct = PkeAc::<{ Aes256Gcm::KEY_LENGTH }, Aes256Gcm>::encrypt(cc, &b.mpk, &p("A::x"), &ptx).unwrap();
+        let dec = |c: &(XEnc, Vec<u8>)| catch_unwind(AssertUnwindSafe(|| PkeAc::<{ Aes256Gcm::KEY_LENGTH }, Aes256Gcm>::decrypt(cc, kx, c)));
+        if !matches!(dec(&ct), Ok(Ok(Some(ref x))) if **x == ptx) {
+            machinery("C07: PKE positive control (large plaintext) failed");
+        }
+        let body = &ct.1;
+        let mut cases: Vec<(String, Vec<u8>)> = vec![];
+        for unit in [16usize, 4096, 65_536, 65_536 + 16, 65_536 + 28, 65_536 + 12] {
+            for lead in [0usize, 12] {
+                let n = (body.len() - lead) / unit;
+                if n < 2 {
+                    continue;
+                }
+                let chunk = |i: usize| &body[lead + i * unit..lead + (i + 1) * unit];
+                let tail = &body[lead + n * unit..];
+                let build = |order: &[usize], with_tail: bool| {
+                    let mut v = body[..lead].to_vec();
+                    for &i in order {
+                        v.extend_from_slice(chunk(i));
+                    }
+                    if with_tail {
+                        v.extend_from_slice(tail);
+                    }
+                    v
+                };
+                let id: Vec<usize> = (0..n).collect();
+                let mut sw = id.clone();
+                sw.swap(0, 1);
+                cases.push((format!("{unit}-byte chunks 0 and 1 exchanged (after {lead} leading bytes)"), build(&sw, true)));
+                let mut sw = id.clone();
+                sw.swap(0, n - 1);
+                cases.push((format!("{unit}-byte chunks 0 and {} exchanged (after {lead} leading bytes)", n - 1), build(&sw, true)));
+                cases.push((format!("last whole {unit}-byte chunk dropped (after {lead} leading bytes)"), build(&id[..n - 1], true)));
+                cases.push((format!("everything after the last whole {unit}-byte chunk dropped (after {lead} leading bytes)"), build(&id, false)));
+                cases.push((format!("only the first {unit}-byte chunk kept (after {lead} leading bytes)"), build(&id[..1], false)));
+                let mut dup = id.clone();
+                dup.insert(1, 0);
+                cases.push((format!("{unit}-byte chunk 0 duplicated (after {lead} leading bytes)"), build(&dup, true)));
+            }
+        }
+        for pos in [0usize, 11, 12, 65_535, 65_536, 65_548, 65_564, 131_072, body.len() - 17, body.len() - 1] {
+            let mut m = body.clone();
+            m[pos] ^= 1;
+            cases.push((format!("bit 0 of byte {pos} of a {}-byte ciphertext", body.len()), m));
+        }
+        for (what, m) in cases {
+            if m == *body {
+                continue;
+            }
+            dem_cases += 1;
+            match dec(&(ct.0.clone(), m)) {
+                Ok(Ok(Some(x))) => run.report(None, "C07.c", &format!("PKE ciphertext (200 000-byte plaintext) with {what}: decrypts to {}", if *x == ptx { "the original plaintext" } else { "other data" }), json!({"engine": "malle-dem", "what": what})),
+                Ok(_) => {}
+                Err(_) => run.report(None, "C07.c", &format!("PKE decrypt panicked on {what}"), json!({"engine": "malle-dem", "what": what})),
+            }
+        }
+    }
     for (md_len, ad) in [(1usize, None), (20, None), (20, Some(&b"ad"[..]))] {
         let md: Vec<u8> = (0..md_len as u8).collect();
         let (_, hdr) = EncryptedHeader::generate(cc, &b.mpk, &p("A::x"), Some(&md), ad).unwrap();
@@ -493,6 +571,95 @@ pub fn check_c07(prop: &str, tier: &str) -> i32 {
         machinery("C07 driver is vacuous");
     }
     run.finish()
+}
+
+/// C11 ("carries ML-KEM ciphertexts bound into the tag"): in hybridized encapsulations with 1-6
+/// targets, altering any single ML-KEM ciphertext makes the encapsulation useless for EVERY key,
+/// not only for the key whose component was altered.
+pub fn hybrid_binding(run: &mut Run) {
+    let cc = Covercrypt::default();
+    let (mut msk, _) = cc.setup().expect("setup");
+    msk.access_structure.add_anarchy("W".into()).unwrap();
+    for i in 0..6 {
+        msk.access_structure.add_attribute(QualifiedAttribute::new("W", &format!("w{i}")), EncryptionHint::Hybridized, None).unwrap();
+    }
+    let mpk = cc.update_msk(&mut msk).unwrap();
+    let keys: Vec<UserSecretKey> = (0..6).map(|i| cc.generate_user_secret_key(&mut msk, &p(&format!("W::w{i}"))).unwrap()).collect();
+    let mut cases = 0u64;
+    for n in 1..=6usize {
+        let pol = (0..n).map(|i| format!("W::w{i}")).collect::<Vec<_>>().join(" || ");
+        let (_, e) = cc.encaps(&mpk, &p(&pol)).unwrap();
+        let w = WEnc::decode(&ser(&e)).unwrap();
+        if !w.hybrid {
+            run.report(None, "C11.d", &format!("an encapsulation for {n} hybridized rights is not hybridized"), json!({"engine": "binding"}));
+            continue;
+        }
+        for j in 0..n {
+            let len = w.items[j].0.as_ref().map_or(0, Vec::len);
+            for at in [0, 1, len / 2, len - 2, len - 1] {
+                let mut m = w.clone();
+                m.items[j].0.as_mut().unwrap()[at] ^= 0x20;
+                let Ok(x) = XEnc::deserialize(&m.encode()) else { continue };
+                cases += 1;
+                for (k, key) in keys.iter().enumerate().take(n) {
+                    if let Ok(Ok(Some(_))) = catch_unwind(AssertUnwindSafe(|| cc.decaps(key, &x))) {
+                        run.report(None, "C11.t", &format!("hybridized encapsulation with {n} targets, byte {at} of the ML-KEM ciphertext of component {j} altered: the key for W::w{k} still opens it - that ciphertext is not bound into the tag"), json!({"engine": "binding", "targets": n, "component": j}));
+                        return;
+                    }
+                }
+            }
+        }
+    }
+    run.set("ml_kem_ciphertext_binding_cases", json!(cases));
+}
+
+/// C09 for decapsulation of well-formed encapsulations nobody can open (no component, no trap,
+/// traps replaced by the encoding of the neutral element, a foreign encapsulation): the call
+/// succeeds with "no secret" - none of the documented error situations applies.
+pub fn hollow_contract(run: &mut Run) {
+    let mut b = w1();
+    let cc = &b.cc;
+    let keys: Vec<(&str, UserSecretKey)> = ["A::x", "A::y && H::lo", "H::hi"].iter().map(|k| (*k, cc.generate_user_secret_key(&mut b.msk, &p(k)).unwrap())).collect();
+    let other = w1();
+    let mut cases = 0u64;
+    for pol in ["A::x", "H::hi", "A::x || A::y"] {
+        let (_, e) = cc.encaps(&b.mpk, &p(pol)).unwrap();
+        let w = WEnc::decode(&ser(&e)).unwrap();
+        let mut variants: Vec<(String, Vec<u8>)> = vec![];
+        let mut m = w.clone();
+        m.items.clear();
+        variants.push(("without right-encapsulations".into(), m.encode()));
+        let mut m = w.clone();
+        m.traps.clear();
+        variants.push(("without traps".into(), m.encode()));
+        let mut m = w.clone();
+        m.traps.pop();
+        variants.push(("with one trap less".into(), m.encode()));
+        for which in 0..=w.traps.len() {
+            let mut m = w.clone();
+            for (i, t) in m.traps.iter_mut().enumerate() {
+                if which == w.traps.len() || i == which {
+                    t.iter_mut().for_each(|x| *x = 0);
+                }
+            }
+            variants.push((if which == w.traps.len() { "with every trap replaced by zero bytes".to_string() } else { format!("with trap {which} replaced by zero bytes") }, m.encode()));
+        }
+        let (_, foreign) = other.cc.encaps(&other.mpk, &p(pol)).unwrap();
+        variants.push(("made under another master key".into(), ser(&foreign)));
+        for (what, bytes) in variants {
+            let Ok(x) = XEnc::deserialize(&bytes) else { continue };
+            for (kn, k) in &keys {
+                cases += 1;
+                match catch_unwind(AssertUnwindSafe(|| cc.decaps(k, &x))) {
+                    Ok(Ok(None)) => {}
+                    Ok(Ok(Some(_))) => run.report(None, "C09.e", &format!("decaps of an encapsulation of {pol:?} {what} with the key {kn}: returned a secret"), json!({"engine": "hollow", "input": hex(&bytes)})),
+                    Ok(Err(e)) => run.report(None, "C09.d", &format!("decaps of an encapsulation of {pol:?} {what} with the key {kn}: Err({e}); nobody can open it, but it is a well-formed encapsulation and none of the documented error situations"), json!({"engine": "hollow", "input": hex(&bytes)})),
+                    Err(_) => run.report(None, "C09.p", &format!("decaps of an encapsulation of {pol:?} {what} with the key {kn}: panicked"), json!({"engine": "hollow", "input": hex(&bytes)})),
+                }
+            }
+        }
+    }
+    run.set("hollow_encapsulation_decaps_cases", json!(cases));
 }
 
 // =======================================================================================
@@ -661,6 +828,25 @@ fn forgeries(keys: &[Issued], ki: usize, msk_rights: &[Vec<u8>], reframe_cap: us
             let mut u = w.clone();
             u.chains[i].1[si].sk[5] ^= 0x10;
             push("secrets", format!("secret {si} of chain {i} altered"), u);
+            for at in [0usize, 16, 31] {
+                let mut u = w.clone();
+                u.chains[i].1[si].sk[at] ^= 0x01;
+                push("secrets", format!("byte {at} of the scalar of secret {si} of chain {i} altered"), u);
+            }
+            // the ML-KEM half: positions all over the decapsulation key (its head, every ~100th
+            // byte, and its tail: embedded encapsulation key, its hash, the rejection value)
+            if let Some(dk) = &w.chains[i].1[si].dk {
+                let n = dk.len();
+                let mut ats: Vec<usize> = vec![0, 1, n / 2, n - 97, n - 89, n - 88, n - 65, n - 64, n - 33, n - 32, n - 2, n - 1];
+                ats.extend((0..n).step_by(101));
+                ats.sort_unstable();
+                ats.dedup();
+                for at in ats {
+                    let mut u = w.clone();
+                    u.chains[i].1[si].dk.as_mut().unwrap()[at] ^= 0x01;
+                    push("secrets", format!("byte {at} of the ML-KEM key of secret {si} of chain {i} altered"), u);
+                }
+            }
             // 4. flavour
             match &w.chains[i].1[si].dk {
                 Some(_) => {
@@ -1033,6 +1219,26 @@ pub fn part_c12(run: &mut Run, tier: &str) {
                         Ok(_) => nontrivial += 1,
                     }
                 }
+            }
+        }
+        // every truncation of the wire form of a header and of the encapsulation of a ciphertext:
+        // an error (or, if some prefix parses, a header nobody decrypts to wrong data), no panic
+        let hb = ser(&hdr);
+        for n in 0..hb.len() {
+            cases += 1;
+            match catch_unwind(AssertUnwindSafe(|| EncryptedHeader::deserialize(&hb[..n]).map(|h| h.decrypt(&inst, &k_auth, Some(b"a"))))) {
+                Err(_) => fail(run, "C12.d", format!("header truncated to {n} of {} bytes (wire form): panic", hb.len())),
+                Ok(Ok(Ok(Some(c)))) if c.metadata.as_deref() != Some(&b"metadata"[..]) => fail(run, "C12.e", format!("header truncated to {n} of {} bytes (wire form): decrypts to other metadata", hb.len())),
+                Ok(_) => nontrivial += 1,
+            }
+        }
+        let xb = ser(&xenc);
+        for n in 0..xb.len() {
+            cases += 1;
+            match catch_unwind(AssertUnwindSafe(|| XEnc::deserialize(&xb[..n]).map(|x| PkeAc::<KL, E>::decrypt(&inst, &k_auth, &(x, body.clone()))))) {
+                Err(_) => fail(run, "C12.d", format!("encapsulation of a PKE ciphertext truncated to {n} of {} bytes: panic", xb.len())),
+                Ok(Ok(Ok(Some(_)))) => fail(run, "C12.e", format!("encapsulation of a PKE ciphertext truncated to {n} of {} bytes: decrypts", xb.len())),
+                Ok(_) => nontrivial += 1,
             }
         }
         match catch_unwind(AssertUnwindSafe(|| PkeAc::<KL, E>::decrypt(&inst, &k_auth, &(xenc, body.clone())))) {
